@@ -356,6 +356,9 @@ class Ctx:
             path = self.write_replay(sig, ent)
             confirmed = None
             tmo = int(getattr(mod, "CASE_TIMEOUT", 900))
+            # confirmations get a generous limit: on a busy machine a replay that merely is slow must not
+            # turn a real violation into "did not reproduce"
+            rtmo = max(3 * tmo, 300)
             if hasattr(mod, "replay"):
                 try:
                     _worker_init()
@@ -370,13 +373,13 @@ class Ctx:
                     elif sig.startswith("library-raises-"):
                         fn = getattr(mod, ent["case"]["__fn__"])
                         try:
-                            _isolated(fn, ent["case"]["__case__"], tmo)
+                            _isolated(fn, ent["case"]["__case__"], rtmo)
                             confirmed = False
                         except _ChildRaised as e2:
                             confirmed = sig == f"library-raises-{e2.name}@{e2.lib}"
                     else:
                         # each replay in a fresh child: earlier replays leave nothing behind
-                        got = _isolated(mod.replay, ent["case"], tmo)
+                        got = _isolated(mod.replay, ent["case"], rtmo)
                         confirmed = any(v[0] == sig for v in got)
                 except BaseException as e:  # noqa: BLE001
                     confirmed = False
@@ -388,7 +391,7 @@ class Ctx:
                 # comes back, the library's answer depends on what the process did before - state carried
                 # over between independent operations - and the enclosing case is the replayable artefact.
                 try:
-                    res2 = _isolated(getattr(mod, enc[0]), enc[1], tmo)
+                    res2 = _isolated(getattr(mod, enc[0]), enc[1], rtmo)
                     if any(v[0] == sig for v in (res2.get("viol") or ())):
                         confirmed = True
                         ent["detail"] = (f"{ent['detail']} [reproduces only inside its enclosing case {enc[0]}: the "
